@@ -601,6 +601,10 @@ class _Analysis(object):
         for k in c.keywords:
             if k.arg == "out":
                 self.sink(self.origins(k.value, env), c, "out= argument of `%s`" % norm_text(f))
+            # SciPy / NumPy routines allowed to destroy their input: overwrite_x / overwrite_a / overwrite_b / overwrite_input=True
+            if k.arg and k.arg.startswith("overwrite") and isinstance(k.value, ast.Constant) and k.value.value is True and c.args:
+                pos = 1 if k.arg == "overwrite_b" and len(c.args) > 1 else 0
+                self.sink(self.origins(c.args[pos], env), c, "%s=True lets `%s` overwrite its argument" % (k.arg, norm_text(f)))
         if b is None:
             if isinstance(f, ast.Attribute):
                 recv = self.origins(f.value, env)
